@@ -1,11 +1,12 @@
 (* RoundTrip.v — decode-after-encode round trip of the typed CBOR model (Cbor/Typed.v).
-   No axioms, nothing admitted.  Files (compile in this order):
+   No axioms; every proof is closed with Qed.  Files (compile in this order):
      RoundTripMono.v   fuel monotonicity (dec_raw_mono, dec_mono, enc_mono, enc_det), dec_raw_app
      RoundTripHead.v   read_head_head : reading back a head written by `head`
      RoundTripWf.v     the predicate wf (Inductive) and the "eventually" quantifier ev
      RoundTripCheck.v  executable checker wfb with wfb_sound : wfb O n d t v = true -> wf O d t v
      RoundTrip.v       dec_enc, dec_enc_fuel_for, unmarshal_enc, enc_injective, examples, counterexamples
      RoundTripSuff.v   sufficient conditions (one_om_select, distinct_from_NoDup, val_eqb_false, raw_item_depth)
+     RoundTripRaw.v    enc_raw: the encoder's output is one raw item (predicate rw); wf_tagged_rw
 
    MAIN STATEMENTS
      dec_raw_mono f f' d b o     : dec_raw f d b = o -> o <> OutOfFuel -> f <= f' -> dec_raw f' d b = o
@@ -70,6 +71,9 @@
           cx_tagged_depth: TTagged 18 over 128 nested slices fails (TTag over the same value round-trips: ex_tag_depth;
                            127 levels under TTagged are fine: ex_tagged_127)
           cx_tagged_bstr:  TTagged 18 (TBstr TAny) over a 120 KB map fails, TBstr TAny alone round-trips (ex_bstr_big)
+        Structural sufficient condition: RoundTripRaw.wf_tagged_rw
+          n < 2^64 -> wf 0 t v -> d < max_depth -> rw (S d) t v -> wf d (TTagged n t) v
+        where rw counts depth the way dec_raw does (theorem enc_raw: rw d t v -> enc fe t v = Ok b -> b is a raw item at d).
     F4  TBstr t: encoded payload shorter than 2^63 bytes (enc_sat ...); no 100000 limit here.  (No executable
         counterexample: it would need 2^63 bytes.  The condition is what `if 9223372036854775807 <? n` in dec demands.)
     F5  TProtHdr: VMap [] or a non-empty map that is wf as TMap TLabel TAny at depth 0 AND whose encoding is shorter than
@@ -79,7 +83,7 @@
         deterministic across fuels (enc_det), so the checker wfb evaluates them with one run of enc.
 *)
 From FDO Require Import Cbor.Typed Cbor.DecFacts.
-From WIP Require Import RoundTripMono RoundTripHead RoundTripWf RoundTripCheck.
+From FDO Require Import Cbor.RoundTripMono Cbor.RoundTripHead Cbor.RoundTripWf Cbor.RoundTripCheck.
 Local Open Scope nat_scope.
 
 Ltac rd mt n rest :=
